@@ -377,6 +377,7 @@ def _match_form(case, f, opmap, raw, mode, cur):
             raise Mismatch("second opcode byte %02x, form says %02x" % (sb, p_second[0]))
 
     implicit_mems = []
+    moffs_used = False
     addr_override = 0x67 in legacy
     seg_seen = [SEG_PREFIX[p] for p in legacy if p in SEG_PREFIX]
     mem_case = None
@@ -425,7 +426,7 @@ def _match_form(case, f, opmap, raw, mode, cur):
             mem_case = c[1]
             if evex is not None:
                 disp_scale = _disp8_n(f, o, mem_case, W)
-            _check_mem(cur, mem_case, mod, rm, mode, addr_override, X, B, V2, evex, disp_scale, o)
+            _check_mem(cur, mem_case, mod, rm, mode, addr_override, X, B, V2, evex, disp_scale, o, case)
         else:
             if opc["modrm"] in ("", "b") and opc["mod"] != "11":
                 raise KeyError("rm operand unclear")
@@ -437,7 +438,10 @@ def _match_form(case, f, opmap, raw, mode, cur):
                 v = cur.take_n(asz)
                 if v != (c[1]["disp"] & ((1 << (asz * 8)) - 1)):
                     raise Mismatch("moffs %x, case says %x" % (v, c[1]["disp"]))
+                if asz < 8 and not (0 <= c[1]["disp"] < (1 << (asz * 8))) and not (mode == 32 and asz == 4 and -0x80000000 <= c[1]["disp"] < 0):
+                    raise Mismatch("moffs%d cannot hold the requested address (0x%x)" % (asz * 8, c[1]["disp"] & M64))
                 mem_case = c[1]
+                moffs_used = True
             else:
                 _check_implicit_mem(c[1], o, mode, addr_override)
                 implicit_mems.append(c[1])
@@ -484,9 +488,13 @@ def _match_form(case, f, opmap, raw, mode, cur):
             if r and r[0] == ("gp32" if mode == 64 else "gp16"):
                 want67 = True
     if mode == 64 and mem_case is not None and not mem_case["base"] and not mem_case["index"] and mem_case.get("addr") == "abs" and \
-            0x80000000 <= mem_case["disp"] <= 0xFFFFFFFF:
+            0x80000000 <= mem_case["disp"] <= 0xFFFFFFFF and not moffs_used:
         # an unsigned 32-bit absolute address with bit 31 set is only reachable with 32-bit addressing (zero extension)
         want67 = True
+    if moffs_used:
+        want67 = addr_override  # moffs: the prefix selects the width of the address field, which was compared as a whole
+    if "cbase" in case and mem_case is not None and not mem_case["base"] and not mem_case["index"] and mem_case.get("addr") != "abs":
+        want67 = addr_override  # rel / default absolute operand: the designated address was compared as a whole (zero extension under 67h)
     if case["name"] in ("invlpga", "monitor", "monitorx", "umonitor", "clzero", "vmload", "vmsave", "vmrun"):
         want67 = addr_override  # implicit-address forms: judged by the decoders
     if addr_override != want67:
@@ -638,7 +646,10 @@ def _check_implicit_mem(m, o, mode, addr_override):
     return
 
 
-def _check_mem(cur, m, mod, rm, mode, addr_override, X, B, V2, evex, scale, o):
+M64 = (1 << 64) - 1
+
+
+def _check_mem(cur, m, mod, rm, mode, addr_override, X, B, V2, evex, scale, o, case=None):
     addr16 = mode == 32 and addr_override
     base = index = None
     shift = 0
@@ -695,6 +706,19 @@ def _check_mem(cur, m, mod, rm, mode, addr_override, X, B, V2, evex, scale, o):
     wb, wi = m["base"], m["index"]
     if wb and wb[0] == "rip":
         wb = ("rip", 0)
+    if rip and wb is None and wi is None and m.get("addr") in ("rel", "default"):
+        # an absolute address that the assembler itself turned into [rip+disp32]: possible only when it knows where the code
+        # lives. The operand designates (address of the next instruction) + disp32; the next instruction starts behind
+        # everything this one appends, incl. a trailing immediate.
+        if case is None or "cbase" not in case or case.get("off") is None:
+            raise KeyError("rip-relative form of an absolute address: code position unknown to the oracle")
+        if case["cbase"] is None:
+            raise KeyError("relocated ([rip+0] + AbsToRel relocation): judged by C04")
+        got = (case["cbase"] + case["off"] + len(cur.raw) + disp) & M64
+        if got != (m["disp"] & M64):
+            raise Mismatch("RIP-relative operand designates another address than requested (0x%x, case says 0x%x: off by %d)" % (got, m["disp"] & M64, got - (m["disp"] & M64)))
+        case["_absenc"] = "riprel"   # (accounting: which encoding carried the address)
+        return
     if rip:
         if wb != ("rip", 0) or wi is not None:
             raise Mismatch("RIP-relative encoding, case says base=%s index=%s" % (wb, wi))
@@ -716,6 +740,12 @@ def _check_mem(cur, m, mod, rm, mode, addr_override, X, B, V2, evex, scale, o):
     if base is None and index is None and not rip:
         if (disp & 0xFFFFFFFF) != (want & 0xFFFFFFFF):
             raise Mismatch("absolute disp32 %x, case says %x" % (disp & 0xFFFFFFFF, want & 0xFFFFFFFF))
+        if case is not None and "cbase" in case:
+            # the whole address counts: disp32 is sign-extended (zero-extended under 67h / in 32-bit mode)
+            got = (disp & 0xFFFFFFFF) if (mode == 32 or addr_override) else (disp & M64)
+            if got != (want & M64) and not (mode == 32 and -0x80000000 <= want < 0):
+                raise Mismatch("absolute disp32 designates another address than requested (0x%x, case says 0x%x)" % (got, want & M64))
+            case["_absenc"] = "abs"
     elif disp != want and (disp & 0xFFFFFFFF) != (want & 0xFFFFFFFF):
         raise Mismatch("displacement %d (scale %d), case says %d" % (disp, scale if dsz == 1 else 1, want))
     elif areg == "gp64" and disp != want and not (-0x80000000 <= want < 0x80000000):
